@@ -164,6 +164,8 @@ func VMemberOf(k TypeKind, name string) bool {
     assume-safety
     ensures @offers-only-table-members forall k string in keys(result) :: VMemberOf(ListTypeKind, k)
     ensures @offers-every-table-member haskey(result, "concat") && haskey(result, "contains") && haskey(result, "insert") && haskey(result, "join") && haskey(result, "last") && haskey(result, "len") && haskey(result, "pop") && haskey(result, "pop_front") && haskey(result, "push") && haskey(result, "push_front") && haskey(result, "remove") && haskey(result, "to_json") && haskey(result, "to_json_indent") && haskey(result, "to_string")
+    requires self.Inner != nil
+    ensures @sort-only-for-sortable-elements haskey(result, "sort") <==> (self.Inner.Kind() == IntTypeKind || self.Inner.Kind() == FloatTypeKind || self.Inner.Kind() == StringTypeKind)
 @*/
 
 /*@ func (self AnyObjectType) Fields
